@@ -201,6 +201,200 @@ def register(reg):
     ))
 
 
+_register_base = register
+
+
+def register(reg):  # noqa: F811
+    _register_base(reg)
+    register_update(reg)
+
+
 ASSUMPTIONS = {"C01": ["link graph is well formed: every chain of inputs/adapters is finite and ends in an output (established by linking and Composition._validate_composition, decided in C19)",
                        "with_delay is seen as a pure function of (adapter, time) by the scheduler contract (DelayToPull's lazy initialisation keeps its effective history, C13.1)"]}
 ASSUMPTIONS["C02"] = ASSUMPTIONS["C01"]
+
+
+# =================================================================================================
+# Composition._update_recursive (C01.2, C02.2, C04.1, C20.3)
+# =================================================================================================
+READY = z3.Function("Ready", IntS, IntS, BoolS)        # Ready(component, time) in the entry heap (DESIGN 3)
+RJ = z3.Function("Ready.witness", IntS, IntS, IntS)    # skolem: an input that is not servable when not Ready
+ONCHAIN = z3.Function("OnChain", IntS, IntS, IntS, BoolS)  # OnChain(c, t, u): u is c or upstream of c along lagging links
+ChainT = TDict(TRef("IComponent"), TTup(TOpt(sv.Delta), Bool))
+SCHED_FIELDS = ["_time", "$ctime", "$next_time", "$status"]
+
+
+def owners_of(ctx):
+    return ctx.get(ctx.self, "_output_owners")
+
+
+def in_at(ctx, c, j):
+    ins = ctx.get(c, "$inputs")
+    return ins.val(ins.keys.at(j).e).e
+
+
+def n_in(ctx, c):
+    return ctx.get(c, "$inputs").keys.n
+
+
+def next_t(ctx, c):
+    return strip_none(ctx.get(c, "$next_time")).e
+
+
+def ok_input(ctx, owners, c, j, t):
+    """input j of component c can be served for a pull at t (one step of the definition of Ready)"""
+    x = in_at(ctx, c, j)
+    r, tr = WR(x, t), WT(x, t)
+    o = owners.val(r).e
+    return Or(WN(x, t), ctx.get(r, "$is_static").e,
+              And(isa("ITimeComponent", o), strip_none(ctx.get(r, "_time")).e >= tr),
+              And(Not(isa("ITimeComponent", o)), READY(o, tr)))
+
+
+def ready_axioms(ctx):
+    owners = owners_of(ctx)
+    c, t, t2, j, u = z3.Ints("rx_c rx_t rx_t2 rx_j rx_u")
+    x = in_at(ctx, c, j)
+    r, tr = WR(x, t), WT(x, t)
+    o = owners.val(r).e
+    lag_link = And(0 <= j, j < n_in(ctx, c), Not(WN(x, t)), Not(ctx.get(r, "$is_static").e))
+    return walk_axioms(ctx) + [
+        # Ready(c,t) holds as soon as every input is servable (introduction; witness function for the converse)
+        z3.ForAll([c, t], Or(READY(c, t), And(0 <= RJ(c, t), RJ(c, t) < n_in(ctx, c), Not(ok_input(ctx, owners, c, RJ(c, t), t)))),
+                  patterns=[READY(c, t)]),
+        # assumed (monotone with_delay): being ready for a later pull implies being ready for an earlier one
+        z3.ForAll([c, t, t2], Implies(And(READY(c, t2), t <= t2), READY(c, t)), patterns=[z3.MultiPattern(READY(c, t2), READY(c, t))]),
+        # OnChain: least relation closed under these rules (only the rules are needed to establish it)
+        z3.ForAll([c, t], ONCHAIN(c, t, c), patterns=[ONCHAIN(c, t, c)]),
+        z3.ForAll([c, t, j, u], Implies(And(lag_link, isa("ITimeComponent", o), strip_none(ctx.get(r, "_time")).e < tr,
+                                           ONCHAIN(o, next_t(ctx, o), u)), ONCHAIN(c, t, u)),
+                  patterns=[z3.MultiPattern(ONCHAIN(c, t, u), WR(x, t))]),
+        z3.ForAll([c, t, j, u], Implies(And(lag_link, Not(isa("ITimeComponent", o)), ONCHAIN(o, tr, u)), ONCHAIN(c, t, u)),
+                  patterns=[z3.MultiPattern(ONCHAIN(c, t, u), WR(x, t))]),
+    ]
+
+
+def sched_unchanged(ctx):
+    o = z3.Int(sv.uid("uo"))
+    parts = []
+    for f in SCHED_FIELDS:
+        parts.append(z3.ForAll([o], sv.value_eq(ctx.get(o, f), ctx.old.get(o, f))))
+    return And(*parts)
+
+
+def updates(ctx):
+    return ctx.get(WORLD, "$updates")
+
+
+def updates_same(ctx):
+    u0, u1 = updates(ctx.old), updates(ctx)
+    i = z3.Int(sv.uid("ui"))
+    return And(u1.n == u0.n, z3.ForAll([i], Implies(And(0 <= i, i < u0.n), u1.at(i).e == u0.at(i).e)))
+
+
+def updates_plus(ctx, comp_e):
+    u0, u1 = updates(ctx.old), updates(ctx)
+    i = z3.Int(sv.uid("ui"))
+    return And(u1.n == u0.n + 1, u1.at(u0.n).e == comp_e,
+               z3.ForAll([i], Implies(And(0 <= i, i < u0.n), u1.at(i).e == u0.at(i).e)))
+
+
+def register_update(reg):
+    from .base import RETENTION_FIELDS
+
+    reg.field("_output_owners", OwnersT)
+    reg.field("$exam", TimeOpt)
+
+    # IComponent.update(): the only way state advances; graph structure is not touched
+    def upd_mod(ctx):
+        return [(None, f) for f in SCHED_FIELDS + RETENTION_FIELDS] + [(WORLD, "$updates"), (WORLD, "$pull_log"), (WORLD, "$notify_log")]
+
+    reg.add(Contract("iface:IComponent.update", params={}, note="method", verify=False, modifies=upd_mod,
+                     ensures=lambda ctx, r: updates_plus(ctx, ctx.self.e)))
+
+    def in_chain(ctx):
+        ch = ctx.chain
+        parts = [And(g, x.dom(ctx.comp.e)) for g, x in sv.alts_of(ch) if isinstance(x, sv.SDict)]
+        return Or(*parts)
+
+    def ur_pre(ctx):
+        s = ctx.self
+        owners = owners_of(ctx)
+        comp = ctx.comp
+        c, j, t = z3.Ints("pq_c pq_j pq_t")
+        x = in_at(ctx, c, j)
+        r = WR(x, t)
+        # every component met: inputs are inputs, needed roots are owned outputs that have published
+        graph_ok = z3.ForAll([c, j, t], Implies(
+            And(isa("IComponent", c), 0 <= j, j < n_in(ctx, c)),
+            And(x > 0, isa("IInput", x),
+                Implies(Not(WN(x, t)),
+                        And(r > 0, Not(isa("IInput", r)), isa("IOutput", r), Not(isa("NoDependencyAdapter", r)),
+                            Implies(Not(ctx.get(r, "$is_static").e),
+                                    And(owners.dom(r), owners.val(r).e > 0, isa("IComponent", owners.val(r).e),
+                                        Not(is_none(ctx.get(r, "_time"))))))))),
+            patterns=[WR(x, t)])
+        times_known = z3.ForAll([c], Implies(isa("ITimeComponent", c), And(Not(is_none(ctx.get(c, "$next_time"))), Not(is_none(ctx.get(c, "$ctime"))))))
+        return And(wf_graph(ctx), graph_ok, times_known, isa("IComponent", comp.e),
+                   Or(isa("ITimeComponent", comp.e), Not(is_none(ctx.target_time))))
+
+    def eff_time(ctx):
+        comp = ctx.comp.e
+        return If(isa("ITimeComponent", comp), next_t(ctx.old, comp), strip_none(ctx.target_time).e)
+
+    def chain_post(ctx):
+        return ctx.post_arg("chain")
+
+    def ur_post(ctx, result):
+        comp = ctx.comp.e
+        c0 = ctx.old
+        tt = eff_time(ctx)
+        none = is_none(result)
+        res = strip_none(result).e
+        ch1 = chain_post(ctx)
+        ch0 = ctx.pre_arg("chain")
+        k = z3.Int(sv.uid("ck"))
+        dom0 = lambda e: Or(*[And(g, x.dom(e)) for g, x in sv.alts_of(ch0) if isinstance(x, sv.SDict)])
+        dom1 = lambda e: Or(*[And(g, x.dom(e)) for g, x in sv.alts_of(ch1) if isinstance(x, sv.SDict)])
+        returned_none = And(
+            Not(isa("ITimeComponent", comp)), READY(comp, tt), updates_same(ctx), sched_unchanged(ctx),
+            # the active chain is the recursion stack: a pull-based component that was served is no longer on it
+            z3.ForAll([k], dom1(k) == dom0(k)),
+        )
+        returned_comp = And(res > 0, isa("ITimeComponent", res), updates_plus(ctx, res),
+                            READY(res, next_t(c0, res)), ONCHAIN(comp, tt, res))
+        return If(none, returned_none, returned_comp)
+
+    def ur_mod(ctx):
+        return [(None, f) for f in SCHED_FIELDS + RETENTION_FIELDS] + \
+               [(WORLD, "$updates"), (WORLD, "$pull_log"), (WORLD, "$notify_log"), ("arg", "chain")]
+
+    def ur_inv(ctx):
+        comp = ctx.comp.e
+        owners = owners_of(ctx)
+        deps = ctx.local("deps")
+        j = z3.Int(sv.uid("dj"))
+        dj = deps.keys.at(j).e
+        ltj = dep_time(deps, dj)
+        oj = owners.val(dj).e
+        done = z3.ForAll([j], Implies(And(0 <= j, j < ctx.k),
+                                      If(isa("ITimeComponent", oj), strip_none(ctx.get(dj, "_time")).e >= ltj,
+                                         READY(oj, ltj))))
+        ch = ctx.local("chain")
+        ch0 = ctx.chain
+        k = z3.Int(sv.uid("ck"))
+        dom0 = lambda e: Or(*[And(g, x.dom(e)) for g, x in sv.alts_of(ch0) if isinstance(x, sv.SDict)])
+        dom1 = lambda e: Or(*[And(g, x.dom(e)) for g, x in sv.alts_of(ch) if isinstance(x, sv.SDict)])
+        return And(updates_same(ctx), sched_unchanged(ctx), done,
+                   z3.ForAll([k], dom1(k) == Or(k == comp, dom0(k))))
+
+    reg.add(Contract(
+        f"{S}.Composition._update_recursive", self_cls="Composition", props=["C01.2", "C02.2", "C04.1", "C20.3"],
+        params={"comp": TRef("IComponent"), "chain": TOpt(ChainT), "target_time": TimeOpt},
+        result=TOpt(TRef("IComponent")), requires=ur_pre, ensures=ur_post, modifies=ur_mod, axioms=ready_axioms,
+        raises={"FinamCircularCouplingError": lambda ctx: z3.BoolVal(True),
+                "FinamTimeError": lambda ctx: z3.BoolVal(True)},
+        must_raise={"FinamCircularCouplingError": in_chain},
+        loops={1: dict(invariant=ur_inv, locals={"chain": ChainT, "updated": TOpt(TRef("IComponent")), "c": TRef("IComponent"),
+                                                  "dep": TRef("IOutput"), "local_time": Time, "delayed": Bool})},
+    ))
